@@ -300,6 +300,65 @@ pub fn stages(ctx: &Ctx) -> Vec<Stage> {
         rep.count("sweep_cases", 1);
         run_case(rep, solver, if (m + k) % 2 == 0 { DimMode::Dynamic } else { DimMode::Static }, &prob, &cfg, 5_000, k == 0);
     }));
+    // end-time rounding: the clipped final step is t + (t_end - t), which does not always round to
+    // t_end when the final step is longer than |t| (intervals starting at or straddling zero, a
+    // handful of steps). Short, cheap solves, all adaptive solvers. (D5, D7, D13)
+    let n_end = tier.pick(24_000u64, 600_000u64);
+    st.push(Stage::new("end-time-rounding", n_end, move |i, rep| {
+        let mut rng = Rng::for_case(seed, "c01-endtime", i);
+        let solver = Solver::ADAPTIVE[(i % 6) as usize];
+        let n = 1 + rng.below(2);
+        let fl = rng.below(4);
+        let prob = IvpProblem::gen(&mut rng, n, fl);
+        let tol = rng.log10(-6.0, -3.0);
+        let dt_max = dtmax_for(solver, prob.lip, tol, rng.r(0.5, 1.0));
+        let dt_min = dt_max * 1e-7;
+        let steps = rng.r(0.3, 6.0) + if solver.is_multistep() { solver.history() as f64 } else { 0.0 };
+        let span = dt_max * steps;
+        let t0 = match rng.below(4) {
+            0 => 0.0,
+            1 => -span * rng.f(),
+            2 => rng.sign() * dt_max * rng.log10(-6.0, 0.0),
+            _ => -span * 0.5,
+        };
+        let cfg = Cfg { t0, t1: t0 + span, dt_min, dt_max, tol };
+        if !(cfg.t1 > cfg.t0) {
+            return;
+        }
+        rep.count("end_time_rounding_cases", 1);
+        run_case(rep, solver, DimMode::Dynamic, &prob, &cfg, 5_000, false);
+    }));
+    // start-up boundary: spans that are (nearly) whole multiples of the initial trial step around the
+    // length of the multistep start-up, where an unshortened start-up adds up to the end time (D38:
+    // one ulp past it) — many more problems than the general sweep, only the critical rows
+    let nb_prob = tier.pick(40u64, 600u64);
+    const BK: [usize; 7] = [0, 1, 2, 3, 4, 15, 16];
+    st.push(Stage::new("startup-boundary", 4 * 3 * BK.len() as u64 * nb_prob, move |i, rep| {
+        let pi = i % nb_prob;
+        let r = i / nb_prob;
+        let k = BK[(r % BK.len() as u64) as usize];
+        let r = r / BK.len() as u64;
+        let dm = (r % 3) as i64 - 1;
+        let solver = [Solver::Adams5, Solver::Adams3, Solver::BDF6, Solver::BDF2][(r / 3) as usize];
+        let startup = if solver.is_bdf() { solver.history() + 1 } else { solver.history() };
+        let m = (startup as i64 + dm) as usize;
+        // the first 10 problems are seed-independent
+        let mut rng = if pi < 10 { Rng::for_case(2024, "c01-boundary-anchor", pi * 10 + solver.idx() as u64) } else { Rng::for_case(seed, "c01-boundary", pi * 10 + solver.idx() as u64) };
+        let n = 1 + rng.below(3);
+        let fl = rng.below(4);
+        let prob = IvpProblem::gen(&mut rng, n, fl);
+        let tol = rng.log10(-9.0, -4.0);
+        let dt_max = dtmax_for(solver, prob.lip, tol, rng.r(0.5, 1.0));
+        let dt_min = dt_max * 1e-7;
+        let t0 = rng.r(-2.0, 2.0);
+        let span = sweep_span((dt_max + dt_min) * 0.5, m, k);
+        if !(span > 0.0) {
+            return;
+        }
+        let cfg = Cfg { t0, t1: t0 + span, dt_min, dt_max, tol };
+        rep.count("startup_boundary_cases", 1);
+        run_case(rep, solver, if pi % 2 == 0 { DimMode::Dynamic } else { DimMode::Static }, &prob, &cfg, 5_000, false);
+    }));
     st
 }
 
